@@ -1462,4 +1462,249 @@ def fanProg : Prog Nat (Nat × Nat) :=
     streams := [{ name := 1, src := 0, ctx := 0 }, { name := 2, src := 0, ctx := 1 }],
     fn := fun n => { init := 0, step := fun k e => (k + 1, [(n, e.2 + k)]) } }
 
+
+
+theorem nodup_filter_snoc (l : List (Snap σ ε)) (sn : Snap σ ε) (h : (l.map (·.ctx)).Nodup) :
+    ((l.filter (fun x => x.ctx != sn.ctx) ++ [sn]).map (·.ctx)).Nodup := by
+  rw [List.map_append, List.nodup_append]
+  refine ⟨?_, by simp, ?_⟩
+  · exact h.sublist (List.filter_sublist.map _)
+  · intro a ha b hb
+    simp only [List.map_cons, List.map_nil, List.mem_singleton] at hb
+    subst hb
+    simp only [List.mem_map, List.mem_filter] at ha
+    obtain ⟨x, ⟨_, hx⟩, rfl⟩ := ha
+    simpa using hx
+
+/-- the assembled checkpoints hold one snapshot per context -/
+structure PhaseNd (net : Net σ ε) (s1 s : St σ ε) : Prop where
+  got : ∀ p, s.pending = some p → (p.got.map (·.ctx)).Nodup
+  done : ∃ new, s.done = s1.done ++ new ∧ ∀ ck ∈ new, (ck.2.map (·.ctx)).Nodup ∧ ck.2.length = net.n
+
+theorem phaseNd_refl (net : Net σ ε) (s1 : St σ ε) (hp : s1.pending = none) : PhaseNd net s1 s1 where
+  got := fun p h => by rw [hp] at h; simp at h
+  done := ⟨[], by simp, by simp⟩
+
+theorem phaseNd_step (net : Net σ ε) (s1 s s' : St σ ε) (l : Label)
+    (h : PhaseNd net s1 s) (hs : step net s l = some s') : PhaseNd net s1 s' := by
+  obtain ⟨hgot, hdone⟩ := h
+  cases l with
+  | feed =>
+    simp only [step] at hs
+    (repeat' split at hs) <;> first | (simp at hs; done) | (injection hs with hs; subst hs; exact ⟨hgot, hdone⟩)
+  | recv c =>
+    simp only [step] at hs
+    (repeat' split at hs) <;> first | (simp at hs; done) | (injection hs with hs; subst hs; exact ⟨hgot, hdone⟩)
+  | fwd c =>
+    simp only [step] at hs
+    (repeat' split at hs) <;> first | (simp at hs; done) | (injection hs with hs; subst hs; exact ⟨hgot, hdone⟩)
+  | start =>
+    simp only [step] at hs
+    split at hs
+    · simp at hs
+    · injection hs with hs; subst hs
+      exact ⟨fun p hp => by simp at hp; subst hp; simp, hdone⟩
+  | inject c =>
+    simp only [step] at hs
+    split at hs
+    · simp at hs
+    · rename_i pd hpd
+      split at hs
+      · split at hs <;>
+        · injection hs with hs; subst hs
+          exact ⟨fun p hp => by simp at hp; subst hp; exact hgot pd hpd, hdone⟩
+      · simp at hs
+  | collect =>
+    simp only [step] at hs
+    split at hs
+    · simp at hs
+    · rename_i k sn rest hak
+      split at hs
+      · rename_i hnone
+        injection hs with hs; subst hs
+        exact ⟨fun p hp => by simp [hnone] at hp, hdone⟩
+      · rename_i pd hpd
+        have hnd := nodup_filter_snoc pd.got sn (hgot pd hpd)
+        split at hs
+        · split at hs
+          · rename_i hlen
+            injection hs with hs; subst hs
+            refine ⟨fun p hp => by simp at hp, ?_⟩
+            obtain ⟨new, hn1, hn2⟩ := hdone
+            refine ⟨new ++ [(k, pd.got.filter (fun x => x.ctx != sn.ctx) ++ [sn])], by simp [hn1], ?_⟩
+            intro ck hck
+            rcases List.mem_append.1 hck with hck | hck
+            · exact hn2 ck hck
+            · simp at hck; subst hck; exact ⟨hnd, hlen⟩
+          · injection hs with hs; subst hs
+            exact ⟨fun p hp => by simp at hp; subst hp; exact hnd, hdone⟩
+        · injection hs with hs; subst hs
+          exact ⟨fun p hp => hgot p hp, hdone⟩
+
+theorem phaseNd_run (net : Net σ ε) (s1 : St σ ε) (labels : List Label) :
+    ∀ s s', PhaseNd net s1 s → runL net s labels = some s' → PhaseNd net s1 s' := by
+  induction labels with
+  | nil => intro s s' h hr; simp [runL] at hr; subst hr; exact h
+  | cons l ls ih =>
+    intro s s' h hr
+    simp only [runL] at hr
+    split at hr
+    · rename_i s'' hst
+      exact ih s'' s' (phaseNd_step net s1 s s'' l h hst) hr
+    · simp at hr
+
+/-- pigeonhole: n distinct contexts below n are all of them -/
+theorem snaps_cover (n : Nat) (parts : List (Snap σ ε)) (hnd : (parts.map (·.ctx)).Nodup)
+    (hlt : ∀ sn ∈ parts, sn.ctx < n) (hlen : parts.length = n) (c : Nat) (hc : c < n) :
+    ∃ sn ∈ parts, sn.ctx = c := by
+  apply Classical.byContradiction
+  intro hno
+  have hsub : parts.map (·.ctx) ⊆ (List.range n).erase c := by
+    intro x hx
+    simp only [List.mem_map] at hx
+    obtain ⟨sn, hsn, rfl⟩ := hx
+    have hne : sn.ctx ≠ c := fun h => hno ⟨sn, hsn, h⟩
+    exact (List.mem_erase_of_ne hne).2 (List.mem_range.2 (hlt sn hsn))
+  have hle := hnd.length_le_of_subset hsub
+  rw [List.length_map, List.length_erase, hlen] at hle
+  simp [List.mem_range.2 hc] at hle
+  omega
+
+
+
+/-- the inbox the ingress dispatches `e` to -/
+def dstOf (net : Net σ ε) (e : ε) : Nat := (tgt net e).getD net.dflt
+
+theorem dstOf_lt (net : Net σ ε) (hd : net.dflt < net.n) (e : ε) : dstOf net e < net.n := by
+  unfold dstOf tgt
+  cases net.route e with
+  | none => simpa using hd
+  | some q =>
+    by_cases hq : q < net.n
+    · simp [hq]
+    · simpa [hq] using hd
+
+theorem unconsumed_zero (net : Net σ ε) (l : List ε) : ∀ cnt : Nat → Nat, (∀ q, cnt q = 0) →
+    unconsumed net cnt l = l := by
+  induction l with
+  | nil => intro cnt _; rfl
+  | cons e l ih => intro cnt h; simp only [unconsumed, h, if_true]; rw [ih cnt h]
+
+theorem unconsumed_prefix (net : Net σ ε) (l rest : List ε) : ∀ cnt : Nat → Nat,
+    (∀ q, cnt q = (l.filter (fun e => dstOf net e = q)).length) →
+    unconsumed net cnt (l ++ rest) = rest := by
+  induction l with
+  | nil => intro cnt h; exact unconsumed_zero net rest cnt (by simpa using h)
+  | cons e l ih =>
+    intro cnt h
+    have h0 : cnt (dstOf net e) ≠ 0 := by rw [h (dstOf net e)]; simp [List.filter_cons]
+    simp only [List.cons_append, unconsumed]
+    have h0' : ¬ cnt ((tgt net e).getD net.dflt) = 0 := h0
+    rw [if_neg h0']
+    apply ih
+    intro q
+    by_cases hq : q = dstOf net e
+    · subst hq
+      have := h (dstOf net e)
+      simp only [List.filter_cons, decide_true, if_true, List.length_cons] at this
+      show upd cnt (dstOf net e) (cnt (dstOf net e) - 1) (dstOf net e) = _
+      rw [upd_same]; omega
+    · have := h q
+      have hne : ¬ (dstOf net e = q) := fun h => hq h.symm
+      simp only [List.filter_cons, hne, decide_false] at this
+      show upd cnt (dstOf net e) (cnt (dstOf net e) - 1) q = _
+      rw [upd_other _ _ _ _ hq]; simpa using this
+
+theorem enq_ingress_eq (net : Net σ ε) (log : List (Obs ε)) (h : ∀ o ∈ log, WfObs net o) (q : Nat) :
+    enq log .ingress q = (fedOk log).filter (fun e => dstOf net e = q) := by
+  induction log with
+  | nil => rfl
+  | cons o l ih =>
+    have ih' := ih (fun o' ho' => h o' (List.mem_cons_of_mem _ ho'))
+    have ho := h o (List.mem_cons_self ..)
+    simp only [enq, fedOk, List.filterMap_cons] at ih' ⊢
+    cases o with
+    | fed e q' ok =>
+      simp only [WfObs] at ho
+      cases ok with
+      | false => simpa [enqOf, fedOkOf] using ih'
+      | true =>
+        by_cases hq : q' = q
+        · have : dstOf net e = q := by unfold dstOf; rw [← ho]; exact hq
+          simp [enqOf, fedOkOf, hq, List.filter_cons, this, ih']
+        · have : ¬ dstOf net e = q := by unfold dstOf; rw [← ho]; exact hq
+          simp [enqOf, fedOkOf, hq, List.filter_cons, this, ih']
+    | fwd c e dst ok => cases dst <;> cases ok <;> simpa [enqOf, fedOkOf] using ih'
+    | _ => simpa [enqOf, fedOkOf] using ih'
+
+theorem snapOf_some (parts : List (Snap σ ε)) (c : Nat) (sn : Snap σ ε) (h : snapOf parts c = some sn) :
+    sn ∈ parts ∧ sn.ctx = c := by
+  unfold snapOf at h
+  exact ⟨List.mem_of_find?_eq_some h, by simpa using List.find?_some h⟩
+
+theorem snapOf_of_mem (parts : List (Snap σ ε)) (c : Nat) (h : ∃ sn ∈ parts, sn.ctx = c) :
+    ∃ sn, snapOf parts c = some sn := by
+  unfold snapOf
+  cases hf : parts.find? (fun x => x.ctx == c) with
+  | some sn => exact ⟨sn, rfl⟩
+  | none =>
+    obtain ⟨sn, hsn, hc⟩ := h
+    have := List.find?_eq_none.1 hf sn hsn
+    simp [hc] at this
+
+theorem quiet_restore (net : Net σ ε) (hd : net.dflt < net.n) (inputs : List ε) (σ0 : Nat → σ)
+    (s1 s2 : St σ ε) (h1 : Reach net (init inputs σ0) s1) (hq : Quiescent net s1)
+    (hp : s1.pending = none) (ha : s1.acks = []) (labels : List Label) (hnf : Label.feed ∉ labels)
+    (hrun : runL net s1 labels = some s2) :
+    ∃ new, s2.done = s1.done ++ new ∧ ∀ ck ∈ new,
+      (restore net inputs σ0 ck.2).todo = s1.todo ∧
+      ∀ c, c < net.n → (restore net inputs σ0 ck.2).eng c = s1.eng c ∧
+        (restore net inputs σ0 ck.2).inbox c = s1.inbox c ∧ (restore net inputs σ0 ck.2).pend c = s1.pend c := by
+  have hinv := phaseInv_run net s1 labels (Or.inl hnf) s1 s2 (phaseInv_refl net s1 hq hp ha) hrun
+  have hnd := phaseNd_run net s1 labels s1 s2 (phaseNd_refl net s1 hp) hrun
+  obtain ⟨new, hn, hg⟩ := hinv.done
+  obtain ⟨new', hn', hg'⟩ := hnd.done
+  have hnew : new' = new := List.append_cancel_left (hn'.symm.trans hn)
+  subst hnew
+  have hfinv := finv_reach net inputs σ0 s1 h1
+  have hedge := reach_edgeInv net _ s1 (edgeInv_init inputs σ0) h1
+  refine ⟨new', hn, ?_⟩
+  intro ck hck
+  have hgood := hg ck hck
+  obtain ⟨hnodup, hlen⟩ := hg' ck hck
+  have hcover := snaps_cover net.n ck.2 hnodup (fun sn hsn => (hgood sn hsn).1) hlen
+  constructor
+  · -- the replayed inputs are exactly the not yet dispatched ones
+    show unconsumed net _ inputs = s1.todo
+    rw [← hfinv.todo]
+    apply unconsumed_prefix
+    intro q
+    by_cases hqn : q < net.n
+    · obtain ⟨sn, hsn⟩ := snapOf_of_mem ck.2 q (hcover q hqn)
+      obtain ⟨hmem, hctx⟩ := snapOf_some ck.2 q sn hsn
+      simp only [hsn]
+      rw [(hgood sn hmem).2.2.2 .ingress q, ← enq_ingress_eq net s1.log hfinv.wf q, ← hedge .ingress q,
+        (hq q hqn).1]
+      simp [proj]
+    · have hnone : snapOf ck.2 q = none := by
+        cases hs : snapOf ck.2 q with
+        | none => rfl
+        | some sn =>
+          obtain ⟨hmem, hctx⟩ := snapOf_some ck.2 q sn hs
+          exact absurd (hctx ▸ (hgood sn hmem).1) hqn
+      simp only [hnone]
+      symm
+      rw [List.length_eq_zero_iff, List.filter_eq_nil_iff]
+      intro e _ he
+      have : dstOf net e = q := by simpa using he
+      exact hqn (this ▸ dstOf_lt net hd e)
+  · intro c hc
+    obtain ⟨sn, hsn⟩ := snapOf_of_mem ck.2 c (hcover c hc)
+    obtain ⟨hmem, hctx⟩ := snapOf_some ck.2 c sn hsn
+    refine ⟨?_, ?_, ?_⟩
+    · show (match snapOf ck.2 c with | some sn => sn.eng | none => σ0 c) = s1.eng c
+      rw [hsn]; simp only; rw [(hgood sn hmem).2.1, hctx]
+    · simp [restore, init, (hq c hc).1]
+    · simp [restore, init, (hq c hc).2]
+
 end Varpulis.Ctx
